@@ -16,6 +16,10 @@ func main() {
 	rep.Rule = "(1) control scripts of Replication.tla in which a node leaves the primary's history (former primary with unreplicated writes, fork at equal TXID, node ahead, node behind a retention cut, node holding only a snapshot, empty node; all orders of primary change and reconnect within the bounds) executed on a real 3-node cluster; (2) offered files: transaction files with wrong min TXID, wrong pre-checksum, duplicate, truncated or corrupt body fed to a replica through a harness-controlled stream and to a primary's /tx endpoint; a case = (script or offered file, concretisation); non-trivial = a position change was observed on a non-primary node / the file was processed"
 	rep.Assumptions = []string{"3 nodes, one database", "CRC64 collisions ignored"}
 	defer core.Cleanup()
+	if os.Getenv("C06_DIRECTED") == "offered" { // development aid (never commit its evidence)
+		repl.OfferedFiles(rep, args)
+		rep.Finish()
+	}
 	if os.Getenv("C06_DIRECTED") == "cleanup" { // development aid (never commit its evidence)
 		snapshotCleanupFails(rep)
 		rep.Finish()
